@@ -322,14 +322,30 @@ class Inliner:
                         break
             if f.value.id == cls and (cls, f.attr) in self.new_methods and self.new_methods[(cls, f.attr)][1] == 'static':
                 return self.new_methods[(cls, f.attr)][0], None, '%s.%s' % (cls, f.attr)
+        if isinstance(f, ast.Attribute) and isinstance(f.value, ast.Name) and (f.value.id, f.attr) in self.new_methods \
+                and self.new_methods[(f.value.id, f.attr)][1] == 'method' and call.args:
+            # K.m(obj, ...) : the plain function m of class K applied to obj (no dispatch)
+            return self.new_methods[(f.value.id, f.attr)][0], None, '%s.%s' % (f.value.id, f.attr)
+        if isinstance(f, ast.Attribute) and isinstance(f.value, ast.Call) and isinstance(f.value.func, ast.Name) and f.value.func.id == 'super' \
+                and not f.value.args and cls is not None and self.foreign is not None:
+            # super().m(...) : first definition of m above the current class
+            for inl_, k_, cdef in self.foreign(cls)[1:]:
+                if (k_, f.attr) in inl_.new_methods and inl_.new_methods[(k_, f.attr)][1] == 'method':
+                    return inl_.new_methods[(k_, f.attr)][0], ast.Name(id='self', ctx=ast.Load()), '%s.%s' % (k_, f.attr)
+                if any(isinstance(x, ast.FunctionDef) and x.name == f.attr for x in cdef.body):
+                    break
         return None
 
     def _bind(self, call, fdef, recv, caller_locals, generator=False):
         """-> (k, prelude statements, renamer, body)  parameters bound, locals renamed apart"""
         a = fdef.args
-        if a.vararg or a.kwarg:
+        passthrough = None
+        stars = [k for k in call.keywords if k.arg is None]
+        if a.kwarg and len(stars) == 1 and isinstance(stars[0].value, ast.Name) and not a.vararg:
+            passthrough = (a.kwarg.arg, stars[0].value)       # f(.., **kargs) -> def f(.., **kargs): the same dict is handed on
+        elif a.vararg or a.kwarg:
             raise NotInlinable('*args/**kwargs')
-        if any(isinstance(x, ast.Starred) for x in call.args) or any(k.arg is None for k in call.keywords):
+        if any(isinstance(x, ast.Starred) for x in call.args) or (stars and passthrough is None):
             raise NotInlinable('star arguments at the call')
         body = _docless(list(fdef.body))
         if _contains(body, (ast.Global, ast.Nonlocal, ast.FunctionDef, ast.ClassDef, ast.Await)):
@@ -358,6 +374,8 @@ class Inliner:
         for p, e in zip(pos, args):
             given[p] = e
         for k in call.keywords:
+            if k.arg is None:
+                continue
             if k.arg in given or k.arg not in pos + [x.arg for x in a.kwonlyargs]:
                 raise NotInlinable('bad keyword %s' % k.arg)
             given[k.arg] = k.value
@@ -385,6 +403,10 @@ class Inliner:
             raise NotInlinable('free names %s of the helper are locals of the caller' % sorted(free & caller_locals))
         prelude = []
         exprs = {}
+        if passthrough is not None:
+            if passthrough[0] in locs or passthrough[0] in mutated:
+                raise NotInlinable('**%s is rebound or updated in the helper' % passthrough[0])
+            exprs[passthrough[0]] = passthrough[1]
         names = {v: '_inl%d_%s' % (k, v) for v in locs}
         # keyword / default order: Python evaluates the call's arguments left to right, then defaults are already values
         order = [p for p in params if p in given]
